@@ -3,8 +3,8 @@
     All theorems are about [format_bonding] as GENERATED from write_cgsmiles.py (Gen/WriterGen.v) on every run.
     Since the fix 1a5deb0 in /repo (`bond_str += order_symb`) the FULL statement about format_bonding holds
     ([C08_format_bonding_spec]; before, it was refuted by ["$a1";"$b2"] -> "=[$b]"), and composed with the
-    strip component's theorem [strip_correct] it gives the descriptor round trip for orders 1..3
-    ([C08_format_strip_roundtrip]); order 0 stays excluded (reader class zero_order_symbol, still open).
+    strip component's theorem [strip_correct] it gives the descriptor round trip for orders 0..3
+    ([C08_format_strip_roundtrip]; order 0 included since the reader fix 0d0f450).
     The fragment-set and whole-string round trips are NOT proved: they are decided per run on the
     implementation's outputs (Write/FragCheck.v) with the writer model (Write/WriteImpl.v) tied to the code by
     the correspondence check. *)
@@ -32,7 +32,7 @@ Theorem C08_format_bonding_single : forall kl o, (o <= 4)%nat ->
 Proof. exact format_bonding_single. Qed.
 
 (** descriptor ROUND TRIP, unbounded: for every organic-subset atom [e] and every list L of descriptors
-    (kind in $ > < !, alphanumeric label, order 1..3, any length, any mixture of orders) the text
+    (kind in $ > < !, alphanumeric label, order 0..3, any length, any mixture of orders) the text
     e ++ format_bonding(L) is read by the strip model as clean text [e] with exactly L on atom 0.
     Writer half: this component (generated code); reader half: Frag.FragProofs.strip_correct (the model
     StripImpl is tied to read_fragments.py by the strip component's own correspondence check). *)
@@ -52,7 +52,7 @@ Example C08_nonvacuous :
   /\ format_bonding [S "$3"; S "<1"; S "!A2"] = Ok (S "#[$][<]=[!A]").
 Proof. exact format_bonding_examples. Qed.
 Example C08_roundtrip_nonvacuous :
-  strip_bonding_descriptors (fun _ => None) (S "C[$a]=[$b]#[<]") = Ok (S "C", [(0%nat, [S "$a1"; S "$b2"; S "<3"])], [], []).
+  strip_bonding_descriptors (fun _ => None) (S "C[$a]=[$b]#[<].[!]") = Ok (S "C", [(0%nat, [S "$a1"; S "$b2"; S "<3"; S "!0"])], [], []).
 Proof. exact format_strip_example. Qed.
 
 Print Assumptions C08_format_bonding_spec.
